@@ -557,6 +557,28 @@ def main (args : List String) : IO Unit := do
   | ["gen", "play", seed, ngames, maxPlies, detailEvery, fenfile] =>
     let fens ← readLines fenfile
     genPlay seed.toNat! ngames.toNat! maxPlies.toNat! detailEvery.toNat! fens
+  | ["kpkranks"] =>
+    -- certificate data for C12: per (stm, pawn square) one number holding 64*64 six-bit ranks (index wk*64+bk)
+    let rk := Spec.KPK.solveRanks ()
+    IO.println "-- GENERATED by `leandrv kpkranks` from Spec.KPK.solveRanks (a function of the rules only). Certificate data: its"
+    IO.println "-- correctness is not assumed anywhere — Props/C12gen re-checks every entry in the kernel."
+    IO.println "namespace Chess.Spec.KPK"
+    IO.println "def rankChunks : List Nat := ["
+    let mut first := true
+    let mut maxr := 0
+    for stm in [0:2] do
+      for wp in [8:56] do
+        let mut v : Nat := 0
+        for wk in [0:64] do
+          for bk in [0:64] do
+            let r := rk.getD (Spec.KPK.idx { stm := stm, wk := wk, wp := wp, bk := bk }) 0
+            if r > maxr then maxr := r
+            v := v ||| (r <<< (6 * (wk * 64 + bk)))
+        IO.println ((if first then "  " else "  ,") ++ "0x" ++ String.ofList (Nat.toDigits 16 v))
+        first := false
+    IO.println "]"
+    IO.println s!"def maxRank : Nat := {maxr}"
+    IO.println "end Chess.Spec.KPK"
   | ["gen", "mates", seed, n] => genMatesLoop ⟨UInt64.ofNat (seed.toNat! * 31337 + 5)⟩ n.toNat! (n.toNat! * 400)
   | ["gen", "lab", seed, n] => genLab seed.toNat! n.toNat! false
   | ["gen", "labfull", seed, n] => genLab seed.toNat! n.toNat! true
